@@ -54,12 +54,10 @@ THEOREMS = [
 ]
 CORPUS = os.path.join(vlib.VERIF, "corpus", "C17")
 TESTDATA = "unused/testdata/src/example.com"
-REPO_PKGS_QUICK = ["go/ir/irutil", "analysis/facts/tokenfile", "go/gcsizes", "printf"]
-REPO_PKGS_THOROUGH = REPO_PKGS_QUICK + [
-    "unused", "pattern", "lintcmd/version", "analysis/edit", "config", "go/types/typeutil", "knowledge",
-    "analysis/facts/generated", "analysis/facts/deprecated", "structlayout", "internal/robustio", "internal/renameio",
-    "go/ast/astutil", "analysis/lint", "sarif", "internal/sync",
-]
+# repository packages that import only the standard library (the harness loader type-checks
+# imports from source in GOPATH mode; module-mode resolution through `go list` costs minutes)
+REPO_PKGS_QUICK = ["go/gcsizes", "printf", "structlayout", "sarif"]
+REPO_PKGS_THOROUGH = REPO_PKGS_QUICK + ["internal/sync", "lintcmd/version", "knowledge"]
 
 
 # ============================================================================ generator
@@ -712,6 +710,21 @@ class Gen17(PkgGen):
                 c = "An%d" % self.uid()
                 self.decls.append("func %s() {\n\t%s(%s{})\n}" % (c, a, st))
             self.hit("anon_struct_chain")
+        if r.chance(1, 4):
+            # a long use chain with forward shortcuts: the depth at which the colouring reaches an
+            # object depends on the order of the edges, its verdict must not
+            k = 30 + r.below(45)
+            base = self.uid()
+            nm = lambda i: ("Dc%d_%d" if i == 0 else "dc%d_%d") % (base, i)
+            for i in range(k + 1):
+                calls = [nm(i + 1)] if i < k else []
+                if i + 2 < k and r.chance(1, 4):
+                    calls.append(nm(i + 2 + r.below(k - i - 2)))
+                if r.chance(1, 2):
+                    calls.reverse()
+                self.decls.append("func %s() {\n%s}" % (nm(i), "".join("\t%s()\n" % c for c in calls)))
+                self.funcs.append(Func(nm(i), [], None))
+            self.hit("deep_chain")
         # //lint:ignore U1000 on some declarations
         for i, d in enumerate(self.decls):
             if d.startswith(("func ", "type ", "var ", "const ")) and r.chance(1, 14):
@@ -759,17 +772,23 @@ def stable_ids(nodes, layout):
 
 
 # ============================================================================ running the real code
-def run_jobs(ctx, binary, jobs, extra_env=None, nproc=8, timeout=1500):
+def run_jobs(ctx, binary, jobs, extra_env=None, nproc=8, timeout=1500, cwd=None):
     """Distribute job dicts over several c17run processes; returns {id: out}."""
     nproc = max(1, min(nproc, len(jobs)))
-    chunks = [jobs[i::nproc] for i in range(nproc)]
+    # all copies of one program go to the same process (its imports are type-checked from source once)
+    groups = {}
+    for j in jobs:
+        groups.setdefault("/".join(j["id"].split("/")[:2]), []).append(j)
+    chunks = [[] for _ in range(nproc)]
+    for k, g in enumerate(sorted(groups.values(), key=lambda g: -sum(len(f["src"]) for j in g for f in j["files"]))):
+        min(chunks, key=lambda c: sum(len(f["src"]) for j in c for f in j["files"])).extend(g)
     env = vlib.go_env(extra_env or {})
 
     def one(chunk):
         if not chunk:
             return []
         inp = "".join(json.dumps(j) + "\n" for j in chunk)
-        rc, so, se = vlib.run([binary], input=inp, env=env, timeout=timeout)
+        rc, so, se = vlib.run([binary], input=inp, env=env, timeout=timeout, cwd=cwd)
         if rc != 0:
             raise vlib.HarnessError("c17run exited %d: %s" % (rc, se[-2000:]))
         outs = [json.loads(l) for l in so.splitlines() if l.strip()]
@@ -803,9 +822,10 @@ def split_files(binary, files):
         if o.get("err"):
             res.append((n, t, []))      # does not parse: the loader will say so
         else:
-            if o["header"] + "".join(o["chunks"]) not in (t, t + "\n"):
+            chunks = o.get("chunks") or []
+            if o["header"] + "".join(chunks) not in (t, t + "\n"):
                 raise vlib.HarnessError("c17run -split does not partition %s" % n)
-            res.append((n, o["header"], o["chunks"]))
+            res.append((n, o["header"], chunks))
     return res
 
 
@@ -874,15 +894,34 @@ def disk_packages(quick):
                 continue
             files.append((os.path.join(p, f), txt))
         if files:
-            out.append(("repo/" + rel, "honnef.co/go/tools/" + rel, files, False))
+            out.append(("repo/" + rel, "honnef.co/go/tools/" + rel, files, True))
     if os.path.isdir(CORPUS):
         for d in sorted(os.listdir(CORPUS)):
             p = os.path.join(CORPUS, d)
             if os.path.isdir(p):
                 fs = sorted(f for f in os.listdir(p) if f.endswith(".go"))
                 if fs:
-                    out.append(("corpus/" + d, "example.com/" + d, [(os.path.join(p, f), open(os.path.join(p, f)).read()) for f in fs], False))
+                    out.append(("corpus/" + d, "example.com/" + d, [(os.path.join(p, f), open(os.path.join(p, f)).read()) for f in fs], True))
     return out
+
+
+def run_model_par(ctx, lines, nproc=6):
+    if not lines:
+        return []
+    nproc = max(1, min(nproc, len(lines) // 50 + 1))
+    chunks = [lines[i::nproc] for i in range(nproc)]
+    with ThreadPoolExecutor(max_workers=nproc) as ex:
+        outs = list(ex.map(lambda c: vlib.run_model(ctx, "C17", c) if c else [], chunks))
+    res = [None] * len(lines)
+    for i, o in enumerate(outs):
+        res[i::nproc] = o
+    return res
+
+
+def edges_of(es):
+    if not es or es == "-":
+        return []
+    return [tuple(int(x) for x in e.split(">")) for e in es.split(",")]
 
 
 def graph_line(o):
@@ -971,8 +1010,8 @@ def extension_candidates(p, o, ids):
         k = 0
         while k < len(lines) and not lines[k].startswith("func "):
             k += 1
-        if k == len(lines) or not lines[k].endswith("{"):
-            continue
+        if k == len(lines) or not lines[k].endswith(") {") and not re.search(r"\) [\w*.\[\]]+ \{$", lines[k]):
+            continue   # the line must end with the brace that opens the function body
         if lines[k].startswith("func mk") or lines[k].startswith("func init("):
             continue   # variable initialisers: a reference to a variable could close an initialisation cycle
         for sid in ids:
@@ -1082,7 +1121,7 @@ def explore(ctx, binary, rng, n_gen, nperm, n_ext, with_disk, tag="main", replay
             parts = split_files(binary, allfiles)
             k = 0
             for ent in ents:
-                progs.append(make_disk(rng, ent, nperm, parts[k:k + len(ent[2])]))
+                progs.append(make_disk(rng, ent, 1 if quick else nperm, parts[k:k + len(ent[2])]))
                 k += len(ent[2])
         for i in range(n_gen):
             progs.append(make_generated(rng.fork(tag), i, nperm))
@@ -1091,20 +1130,20 @@ def explore(ctx, binary, rng, n_gen, nperm, n_ext, with_disk, tag="main", replay
     # ---- round 1: base + repeat + permutations
     light, heavy = [], []
     for p in progs:
-        dst = heavy if (p.gopath or p.gen is None) else light
+        dst = heavy if p.gopath else light
         dst.append(job(p.pid, p.pkgpath, p.base[0]))
         for (vt, jid, files, layout) in p.variants:
             dst.append(job(jid, p.pkgpath, files))
     outs = {}
     with ThreadPoolExecutor(max_workers=2) as ex:
-        fa = ex.submit(run_jobs, ctx, binary, light, None, 6)
-        fb = ex.submit(run_jobs, ctx, binary, heavy, gopath_env, 6)
+        fa = ex.submit(run_jobs, ctx, binary, light, None, 5)
+        fb = ex.submit(run_jobs, ctx, binary, heavy, gopath_env, 2)
         outs.update(fa.result())
         outs.update(fb.result())
 
     res = {"violations": [], "corr": [], "programs": 0, "runs": 0, "pairs": {"repeat": 0, "files": 0, "decls": 0, "ext": 0},
            "nontrivial": set(), "hist": {}, "samples": [], "skipped": [], "nodes": 0, "ext_newly_used": 0, "ext_target_was": {},
-           "iso_checked": 0, "embed_checked": 0, "verdict_lines": 0, "ambiguous_identity": 0, "max_nodes": 0}
+           "iso_checked": 0, "embed_checked": 0, "build_lines": 0, "verdict_lines": 0, "ambiguous_identity": 0, "max_nodes": 0}
     lean_lines, lean_meta = [], []
     usable = []
     rejected = []
@@ -1134,7 +1173,7 @@ def explore(ctx, binary, rng, n_gen, nperm, n_ext, with_disk, tag="main", replay
         for (jid, files, layout, info) in p.exts:
             ext_jobs.append(job(jid, p.pkgpath, files))
     if ext_jobs:
-        outs.update(run_jobs(ctx, binary, ext_jobs, None, 8))
+        outs.update(run_jobs(ctx, binary, ext_jobs, None, 5))
 
     # ---- evaluate
     ext_rejected = 0
@@ -1153,6 +1192,14 @@ def explore(ctx, binary, rng, n_gen, nperm, n_ext, with_disk, tag="main", replay
             res["corr"].append({"id": p.pid, "what": "unused.Result is not the partition of nodes[1:] by the dumped colours", "detail": ob.get("dot_vs_result")})
         lean_lines.append("verdicts " + graph_line(ob))
         lean_meta.append(("verdicts", p, p.pid, ob))
+        # the builder model (Build.lean) fed with the calls the real graph records, in a random order
+        evs = ["s%d.0" % i for i in range(1, ob["n"])]
+        for a, b in edges_of(ob.get("uses")):
+            evs.append("u%d.%d" % (b, a))
+        for a, b in edges_of(ob.get("owns")):
+            evs.append("s%d.%d" % (b, a))
+        lean_lines.append("build " + " ".join(rng.fork("build/" + p.pid).shuffle(evs)))
+        lean_meta.append(("build", p, p.pid, ob))
         if p.gen is not None:
             for k, v in p.gen.hist.items():
                 res["hist"][k] = res["hist"].get(k, 0) + v
@@ -1234,8 +1281,8 @@ def explore(ctx, binary, rng, n_gen, nperm, n_ext, with_disk, tag="main", replay
     if n_ext_total and ext_rejected * 10 > n_ext_total:
         raise vlib.HarnessError("%d of %d single-reference extensions do not type-check: %s" % (ext_rejected, n_ext_total, res["skipped"][-3:]))
 
-    # ---- the model
-    model = vlib.run_model(ctx, "C17", lean_lines) if lean_lines else []
+    # ---- the model (several driver processes)
+    model = run_model_par(ctx, lean_lines)
     for (kind, p, jid, aux), line, mo in zip(lean_meta, lean_lines, model):
         if mo == "bad-op":
             raise vlib.HarnessError("model rejected a line for %s: %s" % (jid, line[:200]))
@@ -1249,6 +1296,14 @@ def explore(ctx, binary, rng, n_gen, nperm, n_ext, with_disk, tag="main", replay
             if mcol != (aux.get("colors") or ""):
                 res["corr"].append({"id": jid, "what": "Lean Results differ from the real colouring (tie X)",
                                     "model": mcol[:300], "impl": (aux.get("colors") or "")[:300]})
+        elif kind == "build":
+            res["build_lines"] += 1
+            objs, vs = mo.split()
+            got = {} if objs == "-" else dict(zip(objs.split(","), vs))
+            want = {str(i + 1): c for i, c in enumerate(aux.get("colors") or "")}
+            if got != want:
+                res["corr"].append({"id": jid, "what": "builder model run on the calls recorded by the real graph (shuffled) gives other verdicts than the real code",
+                                    "differs_at": [k for k in sorted(want, key=int) if got.get(k) != want[k]][:10]})
         elif kind == "iso":
             res["iso_checked"] += 1
             if mo != "hyp=1 same=1":
@@ -1441,25 +1496,24 @@ def merge_eval(ctx, keys, graphs, root, tag):
             viol.append({"key": list(kk), "used_in_variant": real_used[kk]})
     stats = {"packages": len(order), "variant_graphs": sum(len(v) for v in by.values()), "other_graphs(testmain)": other,
              "reported": len(real_keys), "keys_used_in_one_variant_and_unused_in_another": split,
-             "reported_without_tests_only": 0}
+             "reported_without_tests_only": None}
     return corr, viol, stats, real_keys
 
 
-def merge_phase(ctx, sc, c17run, rng, n_pkgs, files=None):
+def merge_phase(ctx, sc, c17run, rng, n_pkgs, files=None, both=True):
     if files is None:
         files, modes, hist = make_module(rng, n_pkgs)
     else:
         modes, hist = {}, {}
     root = os.path.realpath(tempfile.mkdtemp(prefix="mod_", dir=ctx.scratch))
     write_tree(root, files)
-    with ThreadPoolExecutor(max_workers=2) as ex:
-        fa = ex.submit(run_binary, ctx, sc, c17run, root, True, "tests")
-        fb = ex.submit(run_binary, ctx, sc, c17run, root, False, "notests")
-        keys_t, graphs_t = fa.result()
-        keys_n, graphs_n = fb.result()
+    keys_t, graphs_t = run_binary(ctx, sc, c17run, root, True, "tests")
     corr_t, viol_t, stats_t, rk_t = merge_eval(ctx, keys_t, graphs_t, root, "-tests")
-    corr_n, viol_n, stats_n, rk_n = merge_eval(ctx, keys_n, graphs_n, root, "-tests=false")
-    stats_t["reported_without_tests_only"] = len(rk_n - rk_t)
+    corr_n, viol_n, stats_n = [], [], None
+    if both:
+        keys_n, graphs_n = run_binary(ctx, sc, c17run, root, False, "notests")
+        corr_n, viol_n, stats_n, rk_n = merge_eval(ctx, keys_n, graphs_n, root, "-tests=false")
+        stats_t["reported_without_tests_only"] = len(rk_n - rk_t)
     out = {"corr": corr_t + corr_n, "violations": [], "stats": {"with_tests": stats_t, "without_tests": stats_n}, "modes": modes, "hist": hist,
            "files": files}
     for v in viol_t + viol_n:
@@ -1534,10 +1588,10 @@ def run(ctx):
         return run_replay(ctx, binary, sc)
     rng = vlib.SplitMix(ctx.seed).fork("c17")
     quick = ctx.quick
-    n_gen, nperm, n_ext, n_var = (110, 2, 3, 36) if quick else (1200, 4, 6, 240)
+    n_gen, nperm, n_ext, n_var = (50, 2, 2, 20) if quick else (800, 3, 4, 150)
 
     with ThreadPoolExecutor(max_workers=2) as ex:
-        fm = ex.submit(merge_phase, ctx, sc, binary, rng.fork("variants"), n_var)
+        fm = ex.submit(merge_phase, ctx, sc, binary, rng.fork("variants"), n_var, None, not quick)
         res = explore(ctx, binary, rng, n_gen, nperm, n_ext, True)
         phases["in_process_done"] = round(time.time() - t0, 1)
         mres = fm.result()
@@ -1562,12 +1616,13 @@ def run(ctx):
         "programs": res["programs"],
         "runs_of_real_unused_in_process": res["runs"],
         "pairs_compared": res["pairs"],
-        "evaluations": sum(res["pairs"].values()) + mres["stats"]["with_tests"]["reported"] + mres["stats"]["without_tests"]["reported"],
+        "evaluations": sum(res["pairs"].values()) + mres["stats"]["with_tests"]["reported"] + (mres["stats"]["without_tests"] or {}).get("reported", 0),
         "distinct_nontrivial": len(res["nontrivial"]),
         "rule": "one evaluation = one (base, permuted/repeated/extended copy) pair run through the real unused.Analyzer and compared, or one U1000 line "
                 "of the real binary checked against all variants; non-trivial program = at least 6 nodes, >=1 reported and >=1 used unexported object",
         "lean_lines": {"verdicts(model Results vs real colours)": res["verdict_lines"], "iso(real graphs isomorphic, hypotheses of results_perm_invariant)": res["iso_checked"],
-                       "embed(real extended graph is a super-graph, hypotheses of used_mono_embed)": res["embed_checked"]},
+                       "embed(real extended graph is a super-graph, hypotheses of used_mono_embed)": res["embed_checked"],
+                       "build(builder model on the recorded calls in random order vs real colours)": res["build_lines"]},
         "monotone": {"extensions": res["pairs"]["ext"], "objects_newly_used_by_an_extension": res["ext_newly_used"], "target_verdict_before": res["ext_target_was"]},
         "variants_through_real_binary": mres["stats"],
         "variant_modes(0 in-package,1 both,2 external)": {str(m): list(mres["modes"].values()).count(m) for m in (0, 1, 2)},
